@@ -392,6 +392,69 @@ def gen_ble(tier, x_pub):
     return cells
 
 
+def gen_ble_siblings(tier, x_pub):
+    """BLE: items sent NEXT TO a FragmentData / FragmentLast item in the same payload (round 6).  Every delivery plan
+    {one FragmentLast, two payloads, three payloads} x sibling set {Error, wrong State, both} x placed before / after the
+    fragment item x in the first, a middle, the last payload; plus an unterminated FragmentData buffer followed by a
+    plain reply.  The cell's item list is everything the accessory sent: siblings in arrival order, then the
+    reassembled (or buffered) items."""
+    cells = []
+    idx = 0
+    valid = {"S2": "pk384,salt16", "S4": "proof-ok,enc", "S6": "enc,valid", "V2": "pk32,enc,valid", "V4": "-"}
+    for step in STEPS:
+        e = EXP_STATE[step]
+        (fname, fitems, fo) = [v for v in field_variants(step, x_pub) if v[0] == valid[step]][0]
+        sibsets = collections.OrderedDict([
+            ("error", [(T_ERROR, b"\x02")]), ("error6", [(T_ERROR, b"\x06")]),
+            ("wrong-state", [(T_STATE, bytes([e ^ 1]))]),
+            ("both", [(T_STATE, bytes([e ^ 1])), (T_ERROR, b"\x07")]),
+            ("none", []),
+        ])
+        for blob_state in (bytes([e]), None):
+            blob_items = ([(T_STATE, blob_state)] if blob_state else []) + fitems
+            blob = ref_encode(blob_items)
+            n = len(blob)
+            splits = collections.OrderedDict([
+                ("last-only", [blob]), ("two", [blob[:n // 2], blob[n // 2:]]),
+                ("three", [blob[:n // 3], blob[n // 3:2 * n // 3], blob[2 * n // 3:]]),
+            ])
+            for pname, pieces in splits.items():
+                for sname, sib in sibsets.items():
+                    for where in range(len(pieces)):
+                        for pos in ("before", "after"):
+                            if sname == "none" and (where or pos == "after"):
+                                continue
+                            xs = []
+                            for i, piece in enumerate(pieces):
+                                frag = [(13 if i == len(pieces) - 1 else 12, piece)]
+                                extra = sib if i == where else []
+                                payload = ref_encode((extra + frag) if pos == "before" else (frag + extra))
+                                xs.append((0, ble_wrap(payload)))
+                            idx += 1
+                            c = mk_cell("ble", step, "U", sib + blob_items, fo, fields=fname,
+                                        order=f"sibling-{pos}-fragment/{pname}")
+                            c["ble"] = dict(xs=xs, kind="faithful", plan=f"{pname}, {sname} {pos} the fragment item of payload {where + 1}/{len(pieces)}",
+                                            pdu_frag=PDU_FRAGS[idx % len(PDU_FRAGS)], req_frag=[512, 20, 155][idx % 3], sibling=True)
+                            c["meta"]["pdu_frag"] = str(c["ble"]["pdu_frag"])
+                            c["meta"]["exchanges"] = str(len(xs))
+                            c["meta"]["sibling"] = f"{sname}@{['first', 'middle', 'last'][0 if where == 0 and len(pieces) > 1 else (2 if where == len(pieces) - 1 else 1)]}"
+                            cells.append(c)
+            # an unterminated FragmentData buffer, then a reply without fragment item
+            for sname, hidden in (("error", [(T_ERROR, b"\x02")]), ("wrong-state", [(T_STATE, bytes([e ^ 1]))])):
+                if blob_state is not None and sname == "wrong-state":
+                    continue                           # the plain reply's own State comes later and wins (dict semantics)
+                xs = [(0, ble_wrap(ref_encode([(12, ref_encode(hidden))]))), (0, ble_wrap(blob))]
+                idx += 1
+                c = mk_cell("ble", step, "U", blob_items + hidden, fo, fields=fname, order="unterminated-buffer-then-plain")
+                c["ble"] = dict(xs=xs, kind="faithful", plan=f"FragmentData({sname} item) never terminated, then a plain reply",
+                                pdu_frag=PDU_FRAGS[idx % len(PDU_FRAGS)], req_frag=512, sibling=True)
+                c["meta"]["pdu_frag"] = str(c["ble"]["pdu_frag"])
+                c["meta"]["exchanges"] = "2"
+                c["meta"]["sibling"] = f"{sname}@buffer"
+                cells.append(c)
+    return cells
+
+
 def gen_mutated(cells, r, n):
     """malformed stream: truncations / bit flips / duplications of replies of the other streams"""
     out = []
@@ -1363,6 +1426,8 @@ def run(ctx):
                     d[0].add(cell["t"])
                     d[1].add(cell["meta"]["order"])
                     d[2].add(http_class(cell))
+            if verdict is not None and (cell.get("ble") or {}).get("sibling"):
+                verdict = ("ble-fragment-sibling",) + tuple(verdict[1:])
             if impl == "hang":
                 verdict = ("direct", "hang", f"did not return within {CELL_TIMEOUT:g} s of real time")
             if verdict is not None:
@@ -1383,12 +1448,13 @@ def run(ctx):
                  stream=cell["stream"], step=cell["step"], transport=cell["t"], result=canon(impl).split(" ")[0] + " " + (impl.split(" ")[1] if impl.startswith("err") else ""),
                  error_code=("n/a" if items is None else err_name(next((v for k, v in items if k == T_ERROR), None))),
                  state=("n/a" if items is None else state_kind(items, 2 if mg else EXP_STATE[cell["step"]])),
-                 layout=cell["meta"]["order"], len_before_error=cell["meta"].get("len_before_error", "-"), ble_pdu_frag=cell["meta"].get("pdu_frag", "-"),
+                 layout=cell["meta"]["order"], len_before_error=cell["meta"].get("len_before_error", "-"),
+                 ble_sibling=cell["meta"].get("sibling", "-"), ble_pdu_frag=cell["meta"].get("pdu_frag", "-"),
                  ble_exchanges=cell["meta"].get("exchanges", "-"), coap_code=cell["meta"].get("coap_code", "-"))
 
     # ---- the generator streams (fake crypto)
     cells = (gen_main(tier, x_pub) + gen_extra(x_pub) + gen_resume(x_pub) + gen_items(x_pub) + gen_ble(tier, x_pub)
-             + gen_fraglen(tier, x_pub) + gen_adjacent(tier))
+             + gen_fraglen(tier, x_pub) + gen_adjacent(tier) + gen_ble_siblings(tier, x_pub))
     n_mut = 3000 if tier == "quick" else 60000
     cells += gen_mutated(cells, rng(seed, "c04mut"), n_mut)
     step_models = drv.batch([model_line(c) for c in cells])
